@@ -327,6 +327,7 @@ class Scenario(object):
         h.on["starting"] = [lambda: self.maybe_raise("starting")]
         h.on["shutdown"] = [lambda: self.maybe_raise("shutdown")]
         self.kick = []               # client objects the handler will disconnect from inside update()
+        self.junk_inside_tick = []   # (addr, own datagrams) of silent clients: junk offered from inside handler.update()
         self.kick_in_disconnect = [] # client objects the handler will disconnect from inside the NEXT disconnect event
         self.shutdown_in_update = False
         self.handler_shutdown_done = False
@@ -367,6 +368,9 @@ class Scenario(object):
             self.c.inc("server_disconnect_in_connect")
         elif self.r.random() < 0.3:
             client.send(L.make_payload(0, self.r.randrange(1 << 30), 20))
+        elif self.r.random() < 0.4:
+            client.send_guaranteed(L.make_payload(0, self.r.randrange(1 << 30), 30))      # a reliable message the peer may never ack
+            self.c.inc("server_guaranteed_sends")
         self.maybe_raise("connect")
 
     def on_disconnect(self, client):
@@ -384,9 +388,19 @@ class Scenario(object):
             self.c.inc("server_disconnect_in_message")
         elif self.r.random() < 0.3:
             client.send(msg)
+        elif self.r.random() < 0.2:
+            client.send_guaranteed(msg)
+            self.c.inc("server_guaranteed_sends")
         self.maybe_raise("message")
 
     def on_update(self, dt):
+        # datagrams also arrive WHILE a tick is running (the socket thread appends them whenever it likes): junk from the addresses
+        # of silent clients is handed to the entry point from here, i.e. after this tick's batch was taken and before its sweep
+        for addr, own in self.junk_inside_tick:
+            if self.r.random() < 0.95:
+                self.w.offer_server(addr, self.r.randbytes(self.r.randint(20, 60)) if self.r.random() < 0.5 else
+                                    A.forge_crc("c2s", self.r.choice([1, 4, 6]), self.r.randint(1, 65535), 1, 0, [(1, 6, b"k" * 12)], int(self.w.clock.now)), "random")
+                self.c.inc("junk_offered_inside_the_tick")
         for cl in self.kick:
             cl.disconnect()
             self.c.inc("server_disconnect_in_update")
@@ -467,6 +481,8 @@ class Scenario(object):
                     old = [d for (dr, ad, d) in recent if ad == c.addr and len(d) >= 20
                            and ((last_seq - L.parse_header(d)[2] + 32767) % 65535 - 32767) > 40]
                     junk_for.append((c.addr, old))
+                    if r.random() < 0.8:
+                        self.junk_inside_tick.append((c.addr, old))
                 c.active = False                     # goes silent: the server must time it out
                 silent.append(c)
                 self.c.inc("act_go_silent")
@@ -677,7 +693,7 @@ def finish(tier, seed, results):
                          "server_disconnect_in_update", "token_draws_repeating_a_live_token", "handler_raised_in_connect",
                          "handler_raised_in_message", "handler_raised_in_update", "handler_raised_in_disconnect", "connected_at_shutdown",
                          "flow_after_exception_checked", "messages_attributed_to_their_client", "act_hostile_datagram", "realnet_runs",
-                         "realnet_sends", "realnet_stop_during_blocked_handler", "silence_timeouts_checked", "junk_from_silent_addresses", "rogue_sealed_datagrams", "act_blocklist_connected_client", "last_tick_kick_chains",
+                         "realnet_sends", "realnet_stop_during_blocked_handler", "silence_timeouts_checked", "junk_from_silent_addresses", "rogue_sealed_datagrams", "junk_offered_inside_the_tick", "server_guaranteed_sends", "act_blocklist_connected_client", "last_tick_kick_chains",
                          "server_disconnect_in_disconnect", "shutdown_called_from_handler"], inconclusive)
     cov = {
         "evaluations": m["evaluations"],
